@@ -128,6 +128,8 @@ def functions() -> list[Fn]:
         add(f"inv_{t}", [t], t, "~a", "inv", "fixed", ftype=t)
         add(f"pos_{t}", [t], t, "+a", "pos", "fixed", ftype=t)
         add(f"not_{t}", [t], "bool", "not a", "not", "fixed", ftype=t)
+        # argument unboxing done by the wrapper (CPyLong_AsInt64/32/16/UInt8): driven with out-of-range ints too
+        add(f"unbox_{t}", [t], t, "a", "unbox", "unbox", ftype=t)
         add(f"conv_{t}", ["int"], t, f"{t}(a)", "conv", "conv", ftype=t)
         add(f"back_{t}", [t], "int", "int(a)", "back", "conv", ftype=t)
         add(f"tofloat_{t}", [t], "float", "float(a)", "float", "conv", ftype=t)
@@ -139,7 +141,8 @@ def functions() -> list[Fn]:
             add(f"{n}_int_{t}", ["int", t], r, f"a {o} b", o, "mixed", ftype=t)
         # literal divisors: inline_fixed_width_divide / inline_fixed_width_mod
         lo, hi = RANGES[t]
-        for c in (1, 2, 3, 7, 100, -2, -3, -7):
+        # -200 / 250: literal divisors large enough for a remainder equal to the error value (-113 / 239)
+        for c in (1, 2, 3, 7, 100, 250, -2, -3, -7, -200):
             if not (lo <= c <= hi):
                 continue
             cn = f"m{-c}" if c < 0 else str(c)
